@@ -113,6 +113,7 @@ type checker struct {
 	d    *Doc
 	res  *run.Result
 	cont string
+	note string     // prefix of violation details (history position)
 	em   []*expMesh // per distinct mesh pointer
 	// per written model (index into si.scene.Models) → matched node / mesh / material index
 	nodeOf, meshOf, matOf map[int]int
@@ -120,7 +121,7 @@ type checker struct {
 }
 
 func (c *checker) viol(class, site, format string, a ...any) {
-	c.res.Violate(class, site, c.cont, fmt.Sprintf(format, a...), c.witness())
+	c.res.Violate(class, site, c.cont, c.note+fmt.Sprintf(format, a...), c.witness())
 }
 
 func (c *checker) witness() any {
